@@ -258,7 +258,7 @@ func independentDecode(c cfg, history []byte, frame []byte) ([]byte, error) {
 	return io.ReadAll(rd)
 }
 
-func readT(tr transport.Transport, d time.Duration) ([]byte, error) {
+func readT(tr interface{ Read() ([]byte, error) }, d time.Duration) ([]byte, error) {
 	type r struct {
 		b   []byte
 		err error
@@ -671,6 +671,41 @@ func realQUIC(h *lp.H, c cfg, thorough bool) {
 	}
 	sequential(h, what+" (server to client)", B, A, []int{0, 5000, 1})
 	concurrent(h, what, A, B, 4, 12, []int{0, 10, 3000, 40000})
+	// the unreliable path: compression, segmentation into datagrams, reassembly, decompression. Datagrams may be lost (then
+	// nothing arrives for that message); whatever arrives is a message that was sent, whole, at most once
+	ua, okA := A.AsUnreliable()
+	ub, okB := B.AsUnreliable()
+	if okA && okB {
+		sentU := map[string]int{}
+		usizes := []int{1, 100, 1000, 1150, 1300, 5000, 20000, 60000}
+		for i, n := range usizes {
+			m := tagged(77, i, n)
+			sentU[string(m)] = 0
+			if err := ua.Write(m); err != nil {
+				h.Violate(fmt.Sprintf("%s: WriteUnreliable of %d bytes failed: %v", what, len(m), err))
+			}
+		}
+		got := 0
+		for k := 0; k < len(usizes); k++ {
+			m, err := readT(ub, 700*time.Millisecond)
+			if err != nil {
+				break // lost datagrams: allowed
+			}
+			n, known := sentU[string(m)]
+			switch {
+			case !known:
+				h.Violate(fmt.Sprintf("%s: the unreliable reader returned %d bytes that are no message that was sent (partial, mixed or corrupted)", what, len(m)))
+			case n > 0:
+				h.Violate(fmt.Sprintf("%s: an unreliable message of %d bytes was delivered twice", what, len(m)))
+			}
+			sentU[string(m)] = n + 1
+			got++
+		}
+		h.Count(fmt.Sprintf("real:quic:unreliable-delivered-%d-of-%d", got, len(usizes)))
+		if got == 0 {
+			h.Violate(what + ": none of 8 unreliable messages arrived over loopback")
+		}
+	}
 	h.Count("real:quic")
 }
 
